@@ -53,7 +53,7 @@ Inductive cpc :=
 | CSetUpd (i : item) | CSetSend (i : item)
 | CDelStore (k c : N) | CDelSend (k c : N)
 | CWaitSend | CWaitBlock (id : N)
-| CTtl2 (k : N)
+| CTtl2
 | CClr (st : clr_stage) (closing : bool).
 
 Inductive apc :=
@@ -188,7 +188,7 @@ Definition start_call (c : cfg) (s : state) (tid : nat) (o : op) : state :=
   | OWait => if s_closed s then ret s tid o RUnit else goto_pc s tid o CWaitSend []
   | OGetTTL k cf =>
       let '(_, ok) := store_get (s_store s) (s_now s) k cf in
-      if ok then goto_pc s tid o (CTtl2 k) [] else ret s tid o (RTtl 0 false)
+      if ok then goto_pc s tid o CTtl2 [] else ret s tid o (RTtl 0 false)
   | OIter => if s_closed s then ret s tid o (RList []) else ret s tid o (RList (store_iter (s_store s) (s_now s)))
   | OClear => if s_closed s then ret s tid o RUnit else goto_pc s tid o (CClr ClrStop false) []
   | OClose => if s_closed s then ret s tid o RUnit else goto_pc s tid o (CClr ClrStop true) []
@@ -242,11 +242,15 @@ Definition client_step (c : cfg) (s : state) (tid : nat) : option state :=
                | None => None
                end
       | CWaitBlock id => if decide (id ∈ s_markers s) then Some (ret s tid o RUnit) else None
-      | CTtl2 k =>
-          let exp := store_expiration (s_store s) k in
-          if exp =? 0 then Some (ret s tid o (RTtl 0 true))
-          else if exp <? s_now s then Some (ret s tid o (RTtl 0 false))
-          else Some (ret s tid o (RTtl (exp - s_now s) true))
+      | CTtl2 =>
+          match o with
+          | OGetTTL k _ =>
+              let exp := store_expiration (s_store s) k in
+              if exp =? 0 then Some (ret s tid o (RTtl 0 true))
+              else if exp <? s_now s then Some (ret s tid o (RTtl 0 false))
+              else Some (ret s tid o (RTtl (exp - s_now s) true))
+          | _ => None
+          end
       | CClr ClrStop closing =>
           match s_apc s, s_apend s with
           | AIdle, [] => Some (goto_pc (with_app s AExited []) tid o (CClr ClrDrain closing) [])
